@@ -5,10 +5,11 @@ open Mfi Mfi.Tx
 
 def optNat (x : Int) : Option Nat := if x < 0 then none else some x.toNat
 
-/-- triples (prog disc acct0) -/
+/-- triples (prog disc acct0); a non-negative disc carries the number of argument bytes that follow the discriminator in its
+    thousands (disc + 1000 x bytes): which instruction an entry IS depends on the first eight bytes only -/
 def parseIxs : List Int → Option (List Ix)
   | [] => some []
-  | p :: d :: a :: rest => (parseIxs rest).map fun l => { prog := p.toNat, disc := optNat d, acct0 := optNat a, arg := 0 } :: l
+  | p :: d :: a :: rest => (parseIxs rest).map fun l => { prog := p.toNat, disc := optNat (if d ≥ 0 then d % 1000 else d), acct0 := optNat a, arg := 0 } :: l
   | _ => none
 
 def showU (r : Res Unit) : String :=
